@@ -127,15 +127,94 @@ func safeIface(v reflect.Value) (out any) {
 	return nil
 }
 
+// step is one hop of an observation path from the root value.
+type step struct {
+	Kind string // "field", "method", "index", "out" (k-th result of the preceding method)
+	Name string
+	Idx  int
+}
+
+type opath []step
+
+func (p opath) String() string {
+	var b strings.Builder
+	for _, s := range p {
+		switch s.Kind {
+		case "field":
+			b.WriteString("." + s.Name)
+		case "method":
+			b.WriteString("." + s.Name + "()")
+		case "index":
+			fmt.Fprintf(&b, "[%d]", s.Idx)
+		case "out":
+			fmt.Fprintf(&b, "#%d", s.Idx)
+		}
+	}
+	return b.String()
+}
+
 type walker struct {
 	entries []obsEntry
+	paths   []opath // one per entry produced by a reflective method call
 	seen    map[string]bool
 	calls   int
 	max     int
 }
 
+func ext(p opath, s step) opath { return append(append(opath{}, p...), s) }
+
+// execPath re-resolves an observation path on a (fresh) root value and returns the rendered result of its last call.
+func execPath(root reflect.Value, p opath) (out string, panicked bool) {
+	defer func() {
+		if r := recover(); r != nil {
+			out, panicked = fmt.Sprintf("panic: %v", r), true
+		}
+	}()
+	cur := []reflect.Value{root}
+	v := root
+	for i, s := range p {
+		for v.Kind() == reflect.Interface && !v.IsNil() {
+			v = v.Elem()
+		}
+		switch s.Kind {
+		case "field":
+			sv := v
+			if sv.Kind() == reflect.Pointer {
+				sv = sv.Elem()
+			}
+			v = sv.FieldByName(s.Name)
+		case "index":
+			if s.Idx >= v.Len() {
+				return "<index out of range>", false
+			}
+			v = v.Index(s.Idx)
+		case "method":
+			mv := v
+			if v.Kind() != reflect.Pointer && v.CanAddr() {
+				mv = v.Addr()
+			}
+			cur = mv.MethodByName(s.Name).Call(nil)
+			if i == len(p)-1 {
+				var parts []string
+				for _, o := range cur {
+					parts = append(parts, render(o, 0))
+				}
+				return strings.Join(parts, " | "), false
+			}
+		case "out":
+			v = cur[s.Idx]
+		}
+	}
+	return "<path does not end in a call>", false
+}
+
 func (w *walker) call(name string, fn func() []reflect.Value) (outs []reflect.Value) {
+	return w.callP(name, nil, fn)
+}
+
+func (w *walker) callP(name string, p opath, fn func() []reflect.Value) (outs []reflect.Value) {
 	w.calls++
+	w.paths = append(w.paths, p)
 	defer func() {
 		if p := recover(); p != nil {
 			st := string(debug.Stack())
@@ -153,6 +232,10 @@ func (w *walker) call(name string, fn func() []reflect.Value) (outs []reflect.Va
 }
 
 func (w *walker) visit(path string, v reflect.Value, depth int) {
+	w.visitP(path, nil, v, depth)
+}
+
+func (w *walker) visitP(path string, op opath, v reflect.Value, depth int) {
 	if !v.IsValid() || w.calls >= w.max || depth > 5 {
 		return
 	}
@@ -161,7 +244,7 @@ func (w *walker) visit(path string, v reflect.Value, depth int) {
 		if v.IsNil() {
 			return
 		}
-		w.visit(path, v.Elem(), depth)
+		w.visitP(path, op, v.Elem(), depth)
 		return
 	case reflect.Pointer:
 		if v.IsNil() {
@@ -171,7 +254,7 @@ func (w *walker) visit(path string, v reflect.Value, depth int) {
 		if isLibType(v.Type().Elem()) || v.Type().Elem().Kind() == reflect.Interface {
 			n := min(v.Len(), 40)
 			for i := 0; i < n; i++ {
-				w.visit(fmt.Sprintf("%s[%d]", path, i), v.Index(i), depth)
+				w.visitP(fmt.Sprintf("%s[%d]", path, i), ext(op, step{Kind: "index", Idx: i}), v.Index(i), depth)
 			}
 		}
 		if !isLibType(v.Type()) || v.Type().PkgPath() == "" {
@@ -203,10 +286,11 @@ func (w *walker) visit(path string, v reflect.Value, depth int) {
 			continue
 		}
 		name := path + "." + m.Name + "()"
-		outs := w.call(name, func() []reflect.Value { return mv.Method(i).Call(nil) })
+		mp := ext(op, step{Kind: "method", Name: m.Name})
+		outs := w.callP(name, mp, func() []reflect.Value { return mv.Method(i).Call(nil) })
 		for k, o := range outs {
 			if o.IsValid() && (isLibType(o.Type()) || o.Kind() == reflect.Interface) {
-				w.visit(fmt.Sprintf("%s#%d", name, k), o, depth+1)
+				w.visitP(fmt.Sprintf("%s#%d", name, k), ext(mp, step{Kind: "out", Idx: k}), o, depth+1)
 			}
 		}
 	}
@@ -223,7 +307,7 @@ func (w *walker) visit(path string, v reflect.Value, depth int) {
 			}
 			fv := sv.Field(i)
 			if isLibType(f.Type) || f.Type.Kind() == reflect.Interface || (f.Type.Kind() == reflect.Slice && f.Type.Elem().Kind() == reflect.Interface) {
-				w.visit(path+"."+f.Name, fv, depth)
+				w.visitP(path+"."+f.Name, ext(op, step{Kind: "field", Name: f.Name}), fv, depth)
 			}
 		}
 	}
